@@ -158,6 +158,12 @@ func (e *verifEmEng) Lookup2(b0, b1 frontend.Variable, i0, i1, i2, i3 frontend.V
 	hi := e.Select(b0, i3, i2)
 	return e.Select(b1, hi, lo)
 }
+func (e *verifEmEng) Or(a, b frontend.Variable) frontend.Variable {
+	return verifN{uint32(verifB2I(verifOr(verifNU(a) == 1, verifNU(b) == 1)))}
+}
+func (e *verifEmEng) And(a, b frontend.Variable) frontend.Variable {
+	return verifN{uint32(verifB2I(verifAnd(verifNU(a) == 1, verifNU(b) == 1)))}
+}
 func (e *verifEmEng) IsZero(i1 frontend.Variable) frontend.Variable {
 	return verifN{uint32(verifB2I(verifNU(i1) == 0))}
 }
